@@ -17,6 +17,16 @@ CLAIMS = {
          "Bounds as coded in harness/.../generator/swagen/zz_verif_c01.go. Gate assumption: routes whose templates differ only in parameter names are excluded (kin-openapi validation rejects them: 'conflicting paths', so no document is emitted). "
          "Outside: discovery of controllers/methods in source (go/ast, go/types), JSON encoding of the in-memory document.",
          "DESIGN.md 4 (C01)"),
+ "C04": ("For 0-1 (thorough 0-2) controller-level and 0-2 method-level @Security annotations over 3 declared-or-not scheme names plus an undeclared one, 0-2 symbolic scopes, optional default security: "
+         "the real ControllerMeta/ReceiverMeta.Reduce yields method-else-controller-else-default alternatives; both emitters document exactly those alternatives (scheme, scopes, order); every named scheme is declared under components.securitySchemes as configured; "
+         "an undeclared scheme makes both GenerateControllersSpec fail with no operation; validateSecurity rejects iff enforceSecurityOnAllRoutes and the route has no effective security.",
+         "Bounds as coded in harness/.../generator/swagen/zz_verif_c04.go and core/validators/zz_verif_c10.go. annotations.GetCastProperty (reflection) is modelled by an engine intrinsic with its documented contract; the router side (SecurityCheckList) is C03.",
+         "DESIGN.md 4 (C04)"),
+ "C10": ("Receiver-level accept decision (CommonValidator + validateParams + annotation linker, as ReceiverValidator.Validate combines them) for every route with <=1 URL name, <=2 function parameters (primitive or struct, optional context), <=2 parameter annotations "
+         "of the five kinds with symbolic values and optional name alias: no error diagnostic iff the property's linking/body/form/primitive rules hold (soundness and completeness asserted separately); return signature and verb rules; no duplicate diagnostics. "
+         "One recorded finding (alias-less @Path not checked against URL names) is reported as KNOWN-FINDING.",
+         "Bounds as coded in harness/.../core/validators/zz_verif_c10.go. Outside: error-embedding lookup of the return type (go/types), controller-prefix URL names, slices/enums/aliases as parameter types (HIR shapes produced by the visitors), the pipeline gate (not yet covered).",
+         "DESIGN.md 4 (C10)"),
  "C06": ("For every validator string up to the stated length over the tag alphabet, every pointer-ness and every parameter location, "
          "the real appendParamRequiredValidation + IsFieldRequired agree with the requiredness rule of the property (solver-decided per path, "
          "all paths of the bound explored).",
